@@ -55,13 +55,15 @@ type Step struct {
 
 type Behaviour struct {
 	Cfg struct {
-		Retryimm  bool    `json:"retryimm"`
-		Maxblocks int     `json:"maxblocks"`
-		Hasprev   bool    `json:"hasprev"`
-		Mode      string  `json:"mode"`     // pp | fep
-		L1shape   []int   `json:"l1shape"`  // L1 block of each info leaf (default one per block)
-		L1steps   string  `json:"l1steps"`  // L1 history, one info leaf per letter (m: mainnet deposit, o: deposit on the other rollup + verification)
-		L1claims  [][]int `json:"l1claims"` // claim pool: [mainnet, deposit number, index of the info leaf it is made against]
+		Retryimm  bool   `json:"retryimm"`
+		Maxblocks int    `json:"maxblocks"`
+		Hasprev   bool   `json:"hasprev"`
+		Mode      string `json:"mode"`    // pp | fep
+		L1shape   []int  `json:"l1shape"` // L1 block of each info leaf (default one per block)
+		// Storeretries: MaxRetriesStoreCertificate (-1: "0 = retry for ever" of the configuration; 0 / absent: 3)
+		Storeretries int     `json:"storeretries"`
+		L1steps      string  `json:"l1steps"`  // L1 history, one info leaf per letter (m: mainnet deposit, o: deposit on the other rollup + verification)
+		L1claims     [][]int `json:"l1claims"` // claim pool: [mainnet, deposit number, index of the info leaf it is made against]
 	} `json:"cfg"`
 	Steps []Step `json:"steps"`
 }
@@ -488,8 +490,14 @@ func runOne(tw *tr.W, root string, idx int, b Behaviour, seed int64) error {
 	n := &node{w: w, dir: dir, logger: log.WithFields("verif", "aggsender"), signer: &recSigner{key: key}, mode: b.Cfg.Mode,
 		prover: &fakeProver{}}
 	n.ag = &agglayer{hasPrev: b.Cfg.Hasprev}
+	storeRetries := 3
+	if b.Cfg.Storeretries < 0 {
+		storeRetries = 0 // the configuration's "retry for ever"
+	} else if b.Cfg.Storeretries > 0 {
+		storeRetries = b.Cfg.Storeretries
+	}
 	n.cfg = config.Config{
-		MaxRetriesStoreCertificate: 3, DelayBetweenRetries: cfgtypes.Duration{Duration: time.Millisecond},
+		MaxRetriesStoreCertificate: storeRetries, DelayBetweenRetries: cfgtypes.Duration{Duration: time.Millisecond},
 		KeepCertificatesHistory: true, RetryCertAfterInError: b.Cfg.Retryimm,
 		CheckStatusCertificateInterval: cfgtypes.Duration{Duration: 0},
 	}
